@@ -334,8 +334,14 @@ def main(job):
             out["detail"] = "counterexample did not reproduce natively (encoding error): %r" % (cex,)
     # vacuity
     if out["verdict"] in ("confirmed", "inconclusive") and twin["state"] != "CEX":
-        out["verdict"] = "harness_error"
-        out["detail"] = "vacuity twin not refuted (%s): harness never reaches a non-trivial case" % twin["state"]
+        if twin["state"] == "CONFIRMED":
+            out["verdict"] = "harness_error"
+            out["detail"] = "vacuity twin not refuted (CONFIRMED): harness never reaches a non-trivial case"
+        else:
+            # no witness found within the twin's time budget (e.g. machine under load): the
+            # main verdict cannot be called non-vacuous, so it is not counted as confirmed
+            out["verdict"] = "inconclusive"
+            out["detail"] = "vacuity twin undecided (%s) within its time budget" % twin["state"]
     if out["verdict"] in ("confirmed", "inconclusive") and twin.get("witness_native_nontrivial") is False:
         out["verdict"] = "harness_error"
         out["detail"] = "vacuity witness does not reproduce natively"
